@@ -19,6 +19,18 @@ def tasks(ctx):
         if cls[3] == "mbc":
             for kind in ("none", "mbc2", "mbc3", "mbc5"):
                 ts.append(mc.effect_task(kind, cls))
+    ts.extend(mc.invariant_tasks(ctx))
+    # the documented effect of the sound control registers on NR52 is more than "may change": which way a channel's status bit
+    # goes is fixed by the register semantics (trigger with DAC on and no sweep overflow switches on; DAC off, power off, sweep
+    # overflow and length expiry switch off). Those clauses of the write handlers and of the trigger functions are obligations
+    # here too (they are C19's contracts)
+    import props.C19 as c19
+    import props.audio_common as ac
+    from engine.driver import Task
+    ts += [Task(ac.A + f, ac.A + f, overrides=ac.OV, keep=c19.KEEP) for f in c19.AU if f.startswith("Write")]
+    ts += [Task(f, f, keep=c19.KEEP) for f in c19.FU if f.endswith(".trigger")]
+    ts.append(Task("(*audio.square).trigger[ch1]", "(*audio.square).trigger", variant="with-sweep", keep=c19.KEEP))
+    ts.append(Task("(*audio.square).trigger[ch2]", "(*audio.square).trigger", variant="no-sweep", overrides={"s.sweep": ac.nil_value}, keep=c19.KEEP))
     return filter_tasks(ts)
 
 
